@@ -282,6 +282,14 @@ def fam_compiled_twice(tier):
             if tier == 'quick' and (i + j) % 2:
                 continue
             out.append(mk(t, std_wfs(), extra={'first': first}, **dict(STD_CFG, **second)))
+    # repetition counts 0: the first compilation unrolls the 0-count nodes away (a node may be left without children
+    # and without waveform: it plays nothing, and the second compilation rejects it)
+    zero_trees = [T([T([T([L(0)]), T([L(1), L(0)], r=2)], r=0)]),
+                  T([T([L(0), L(1)], r=2), T([T([L(1)]), T([L(0, 0), L(1)])], r=0), T([L(2), L(0)])]),
+                  T([T([L(0, 0), L(1)], r=2), T([L(2, 0)])])]
+    for t in zero_trees:
+        for first, second in combos[:3]:
+            out.append(mk(t, std_wfs(), extra={'first': first}, **dict(STD_CFG, **second)))
     return out
 
 
